@@ -62,6 +62,7 @@ for _m in ["GET", "HEAD", "POST", "PUT", "DELETE", "CONNECT", "OPTIONS", "TRACE"
     CTORS[("Method", _m)] = (_m, None)
 CTORS.update({("Phase", "SendLine"): ("PLine", None), ("Phase", "SendHeaders"): ("PHeaders", "usize"), ("Phase", "SendBody"): ("PBody", None),
               ("Phase", "RecvResponse"): ("PRecvResponse", None), ("Phase", "RecvBody"): ("PRecvBody", None)})
+CTORS.update(dict((("CloseReason", r), (r, None)) for r in ("Http10", "ClientConnectionClose", "ServerConnectionClose", "Not100Continue", "CloseDelimitedBody")))
 CTORS.update({("Status", "Complete"): ("HpComplete", "usize"), ("Status", "Partial"): ("HpPartial", None)})
 CTORS.update({("RedirectAuthHeaders", "Never"): ("Never", None), ("RedirectAuthHeaders", "SameHost"): ("SameHost", None)})
 ENUM_EQB = {"Dechunker": "dechunker_eqb", "Method": "method_eqb"}
@@ -449,7 +450,7 @@ class Tr(object):
                 return "%s %s" % (segs[0], t), env
             if segs == ["Some"] or segs == ["Ok"]:
                 t, env = self.pat(p[2][0], env, None)
-                return "Some %s" % t, env
+                return "Some %s" % (("(%s)" % t) if " " in t and not t.startswith("(") else t), env
             if segs == ["None"]:
                 return "None", env
             if segs == ["Err"] and p[2] and p[2][0][0] == "pwild":
@@ -464,6 +465,8 @@ class Tr(object):
                     sub = p[2][0]
                     if sub[0] == "pwild":
                         return "%s _" % c[0], env
+                    if sub[0] == "plit":
+                        return "%s %s" % (c[0], self.pure(sub[1], env)), env
                     if sub[0] != "pbind":
                         raise Unsupported("nested constructor pattern")
                     v = cn(sub[1])
@@ -592,6 +595,12 @@ class Tr(object):
             return "(to_lower %s)" % self.pure(recv, env)
         if name == "parse::u64" and not args:
             return "(parse_dec_u64 %s)" % self.pure(recv, env)
+        if name == "contains" and len(args) == 1 and self.ty_of(recv, env) == "reasons":
+            return "(existsb (reason_eqb %s) %s)" % (self.pure(args[0], env), self.pure(recv, env))
+        if name == "first" and not args:
+            return "(hd_error %s)" % self.pure(recv, env)
+        if name == "map" and len(args) == 1 and (self.ty_of(recv, env) == "option" or (recv[0] == "mcall" and recv[2] == "first")):
+            return "(option_map %s %s)" % (self.closure1(args[0], env), self.pure(recv, env))
         if name == "contains" and len(args) == 1 and recv[0] == "range" and recv[1] is not None and recv[2] is not None:
             x = self.pure(args[0], env)
             hi = self.pure(recv[2], env)
@@ -1208,7 +1217,7 @@ class Tr(object):
                 and (env[x[1][1][0]].ty or "").startswith("Option<"):
             c = cn(name)
             return "match %s with Some %s => %s | None => %s end" % (
-                env[x[1][1][0]].coq, c, nxt(self.bind(env, name, B("val", c))), self.leaf_panic("%s: unwrap() of None in %s" % (self.cfg["file"], self.cfg["rust"])))
+                env[x[1][1][0]].coq, c, nxt(self.bind(env, name, B("val", c, ty=env[x[1][1][0]].ty[7:-1]))), self.leaf_panic("%s: unwrap() of None in %s" % (self.cfg["file"], self.cfg["rust"])))
         if x[0] == "mcall" and x[2] == "unwrap" and not x[3] and x[1][0] == "mcall" and x[1][2] in ("as_mut", "as_ref") and not x[1][3]:
             pl = self.place_of(x[1][1], env)
             inner = x[1][1]
@@ -1921,6 +1930,51 @@ FLOWFUNCS = [
          functions=_PARSER_FUNCTIONS, paths=_PARSER_PATHS, val_fields={"name": "fst", "value": "snd"},
          sum_types={"hpres": ("HpOk", "HpErr")}, err_functions=["hperr_into"], share_continuation=True, loop_state_assigned_only=True, coq_types={"builder": "(N * bytes * list header)%type"},
          rust_ret="Result<Option<(usize, Request<()>)>, Error>"),
+    # small functions of src/client/flow.rs and src/client/call.rs that the translations above took as flags or as the model's reading:
+    # the close-reason list (each reason once, the first one explained), the redirect test on the recorded status, whether a response
+    # body is expected, the body mode reported to the caller, the three questions asked of the response body reader
+    dict(coq="gen_add_close_reason", file="src/client/flow.rs", impl=None, rust="add_close_reason",
+         subst=[(r"reasons\.push\(reason\);", "reasons.push(reason);")],
+         params=[("reasons", "mutval", "list reason", "reasons"), ("reason", "val", "reason", None)], rust_ret="()"),
+    dict(coq="gen_explain", file="src/client/flow.rs", impl=r"impl CloseReason", rust="explain", kind="plain", format_bytes=True,
+         subst=[(r"match self", "match reason")],
+         params=[("reason", "val", "reason", None)], rust_ret="&'static str"),
+    dict(coq="gen_inner_is_redirect", file="src/client/flow.rs", impl=r"impl<B>\s+Inner<B>", rust="is_redirect", kind="plain",
+         subst=[(r"self\.status", "status"), (r"v != StatusCode::NOT_MODIFIED", "v != 304")],
+         params=[("status", "val", "option N", None)], methods={"is_redirection": "is_redirection"}, rust_ret="bool"),
+    dict(coq="gen_close_reason", file="src/client/flow.rs", impl=r"impl<B>\s+Flow<B,\s*Cleanup>", rust="close_reason", kind="plain",
+         subst=[(r"self\.inner\.close_reason", "close_reason"), (r"s\.explain\(\)", "explain(s)")],
+         params=[("close_reason", "val", "list reason", "reasons")], functions={"explain": "gen_explain"}, rust_ret="Option<&'static str>"),
+    dict(coq="gen_redirect_close_reason", file="src/client/flow.rs", impl=r"impl<B>\s+Flow<B,\s*Redirect>", rust="close_reason", kind="plain",
+         subst=[(r"self\.inner\.close_reason", "close_reason"), (r"s\.explain\(\)", "explain(s)")],
+         params=[("close_reason", "val", "list reason", "reasons")], functions={"explain": "gen_explain"}, rust_ret="Option<&'static str>"),
+    dict(coq="gen_must_close", file="src/client/flow.rs", impl=r"impl<B>\s+Flow<B,\s*Cleanup>", rust="must_close_connection", kind="plain",
+         subst=[(r"self\.close_reason\(\)", "close_reason_of(close_reason)")],
+         params=[("close_reason", "val", "list reason", "reasons")], functions={"close_reason_of": "gen_close_reason"}, rust_ret="bool"),
+    dict(coq="gen_redirect_must_close", file="src/client/flow.rs", impl=r"impl<B>\s+Flow<B,\s*Redirect>", rust="must_close_connection", kind="plain",
+         subst=[(r"self\.close_reason\(\)", "close_reason_of(close_reason)")],
+         params=[("close_reason", "val", "list reason", "reasons")], functions={"close_reason_of": "gen_redirect_close_reason"}, rust_ret="bool"),
+    dict(coq="gen_need_response_body", file="src/client/call.rs", impl=r"impl BodyState", rust="need_response_body", kind="plain",
+         subst=[(r"self\.reader", "reader")],
+         params=[("reader", "val", "option reader", None)], rust_ret="bool"),
+    dict(coq="gen_call_body_mode", file="src/client/call.rs", impl=r"impl<State, B>\s+Call<State,\s*B>", rust="body_mode", kind="plain",
+         subst=[(r"self\s*\.state\s*\.reader", "reader")],
+         params=[("reader", "val", "option reader", "option")], methods={"body_mode": "gen_br_body_mode"}, paths={"BodyMode::Chunked": "BMChunked"},
+         rust_ret="BodyMode"),
+    dict(coq="gen_call_is_ended", file="src/client/call.rs", impl=r"impl<B>\s+Call<RecvBody,\s*B>", rust="is_ended",
+         subst=[(r"self\.state\.reader\.as_ref\(\)", "state_reader")],
+         params=[("state_reader", "val", "option reader", "Option<BodyReader>")], rust_ret="bool"),
+    dict(coq="gen_call_is_on_chunk_boundary", file="src/client/call.rs", impl=r"impl<B>\s+Call<RecvBody,\s*B>", rust="is_on_chunk_boundary",
+         subst=[(r"self\.state\.reader\.as_ref\(\)", "state_reader")],
+         params=[("state_reader", "val", "option reader", "Option<BodyReader>")], rust_ret="bool"),
+    dict(coq="gen_call_is_close_delimited", file="src/client/call.rs", impl=r"impl<B>\s+Call<RecvBody,\s*B>", rust="is_close_delimited",
+         subst=[(r"self\.state\.reader\.as_ref\(\)", "state_reader")],
+         params=[("state_reader", "val", "option reader", "Option<BodyReader>")], rust_ret="bool"),
+    dict(coq="gen_recv_body_can_proceed", file="src/client/flow.rs", impl=r"impl<B>\s+Flow<B,\s*RecvBody>", rust="can_proceed",
+         subst=[(r"let call = self\.inner\.call\.as_recv_body\(\);", ""), (r"call\.is_ended\(\)", "call_is_ended(state_reader)"),
+                (r"call\.is_close_delimited\(\)", "call_is_close_delimited(state_reader)")],
+         params=[("state_reader", "val", "option reader", None)],
+         known_res=[("call_is_ended", "gen_call_is_ended", 1), ("call_is_close_delimited", "gen_call_is_close_delimited", 1)], rust_ret="bool"),
     # src/ext.rs: HeaderIterExt::has (the test behind `Connection: close` and `Expect: 100-continue`): some field with that name has that value
     dict(coq="gen_headers_has", file="src/ext.rs", impl=None, rust="has", kind="plain", bytes_vars=["key", "value"],
          subst=[(r"self\s*\.filter", "headers.iter().filter")],
